@@ -178,6 +178,9 @@ def stepOracles (br : BR) (op : Op) (c : Cfg) (w : World) (exp : Exp) (o : StepO
     ("C01.canary_upgrade_reaches_target", upgradeReachesTarget br op w o),
     ("C05.canary_finalize_releases_stable", finalizeReleasesStable br op o),
     ("C05.canary_finalize_ok_means_gone", finalizeOkMeansGone op o),
+    -- C18: the BatchRelease reaches Completed (and then drops its own finalizer) only through a Finalize that
+    -- returned ok, which therefore must have released every canary Deployment it owns
+    ("C18.canary_finalize_ok_means_gone", finalizeOkMeansGone op o),
     ("C05.canary_stable_frame", stableFrame br op w o),
     ("C18.canary_finalizer_only_by_finalize", finalizerOnlyByFinalize op w o),
     ("C18.canary_foreign_untouched", foreignUntouched br w o),
